@@ -2,6 +2,7 @@
 from __future__ import annotations
 
 import os
+import re
 import subprocess
 import tempfile
 import time
@@ -53,6 +54,70 @@ def run_cli(cmd, text, timeout_s):
             os.unlink(path)
         except OSError:
             pass
+
+
+def linearize(formula):
+    """Products of two unknowns replaced by fresh variables constrained by facts every product satisfies (signs; a fraction of a
+    non-negative amount is at most that amount; zero factors).  If the result is unsatisfiable so is `formula`: a model of `formula` extends to
+    one of the result by giving each fresh variable the value of its product.  (The converse does not hold: `sat` here proves nothing.)"""
+    cache, table, lemmas = {}, {}, []
+
+    def to_real(t):
+        return z3.ToReal(t) if t.is_int() else t
+
+    def walk(t):
+        k = t.get_id()
+        if k in cache:
+            return cache[k]
+        if z3.is_app(t) and t.num_args() > 0:
+            args = [walk(a) for a in t.children()]
+            if z3.is_mul(t):
+                syms = [a for a in args if not (z3.is_int_value(a) or z3.is_rational_value(a) or z3.is_algebraic_value(a))]
+                if len(syms) >= 2:
+                    consts = [a for a in args if a not in syms]
+                    acc = syms[0]
+                    for nxt in syms[1:]:
+                        key = (acc.get_id(), nxt.get_id())
+                        if key not in table:
+                            both_int = acc.is_int() and nxt.is_int()
+                            p = z3.FreshInt('prod') if both_int else z3.FreshReal('prod')
+                            x, y, pr = to_real(acc), to_real(nxt), to_real(p)
+                            lemmas.append(z3.And(
+                                z3.Implies(z3.And(x >= 0, y >= 0), pr >= 0), z3.Implies(z3.And(x <= 0, y <= 0), pr >= 0),
+                                z3.Implies(z3.And(x >= 0, y <= 0), pr <= 0), z3.Implies(z3.And(x <= 0, y >= 0), pr <= 0),
+                                z3.Implies(z3.Or(x == 0, y == 0), pr == 0),
+                                z3.Implies(z3.And(x >= 0, y >= 0, y <= 1), pr <= x), z3.Implies(z3.And(x >= 0, y >= 0, x <= 1), pr <= y),
+                                z3.Implies(z3.And(x >= 0, y >= 1), pr >= x), z3.Implies(z3.And(y >= 0, x >= 1), pr >= y),
+                                z3.Implies(x == 1, pr == y), z3.Implies(y == 1, pr == x)))
+                            table[key] = p
+                        p = table[key]
+                        if acc.is_int() and nxt.is_int():
+                            acc = p
+                        else:
+                            acc = to_real(p) if p.is_int() else p
+                    out = acc
+                    for c in consts:
+                        if out.is_int() and not c.is_int():
+                            out = z3.ToReal(out)
+                        if c.is_int() and not out.is_int():
+                            c = z3.ToReal(c)
+                        out = c * out
+                    if out.sort() != t.sort():
+                        out = z3.ToReal(out) if t.is_real() else out
+                    cache[k] = out
+                    return out
+            try:
+                r = t.decl()(*args) if not z3.is_quantifier(t) else t
+            except Exception:   # noqa  (sort mismatch after a rewrite: keep the original sub-term)
+                r = t
+            cache[k] = r
+            return r
+        cache[k] = t
+        return t
+    f2 = walk(formula)
+    if not table:
+        return None
+    return z3.And(f2, *lemmas)
 
 
 def goal_conjuncts(hyp, goal):
@@ -117,6 +182,19 @@ def discharge(ob, timeout_ms=10000, second_opinion=True, want_model=True, split=
         res = 'sat' if r == z3.sat else ('unsat' if r == z3.unsat else 'unknown')
         if res == 'sat' and want_model:
             model = s.model()
+        if res == 'unknown':
+            # nonlinear arithmetic is erratic (the same obligation: 0.03 s or no answer, depending on term order): try the product-free
+            # over-approximation, whose `unsat` carries over
+            try:
+                lin = linearize(neg)
+            except Exception:   # noqa
+                lin = None
+            if lin is not None:
+                s2 = z3.SolverFor('QF_LIRA')         # (the default strategy has been seen to give up on this linear problem)
+                s2.set('timeout', min(int(timeout_ms), 15000))
+                s2.add(lin)
+                if s2.check() == z3.unsat:
+                    res, backend = 'unsat', 'z3-5.1(py)+products-abstracted'
         if res == 'unknown' and second_opinion:
             text = smt2_of(neg)
             tl = max(1, int(timeout_ms / 1000))
@@ -128,6 +206,11 @@ def discharge(ob, timeout_ms=10000, second_opinion=True, want_model=True, split=
                 if r2 in ('sat', 'unsat'):
                     res, backend = r2, name
                     break
+    if res == 'unknown' and os.environ.get('PYVC_DUMP_UNKNOWN'):
+        try:
+            open(os.path.join(os.environ['PYVC_DUMP_UNKNOWN'], re.sub(r'[^A-Za-z0-9_.-]+', '_', ob.id)[:120] + '.smt2'), 'w').write(smt2_of(neg))
+        except Exception:   # noqa
+            pass
     if res == 'unknown' and split and ob.kind not in ('cover', 'canary'):
         r3 = discharge_split(ob, timeout_ms, want_model)
         if r3 is not None and r3['status'] != UNKNOWN:
